@@ -49,11 +49,22 @@ pub mod ffi {
         this: ErasedList,
         idx: u64,
     ) {
-        let idx = idx.try_into().ok();
-        match idx.and_then(|idx| this.get(idx)) {
+        let idx: Option<usize> = idx.try_into().ok();
+
+        // The lock is held from the lookup until the element has been
+        // cloned: the pointer is only valid while no other thread can push
+        // to the list (which may reallocate the buffer).
+        #[cfg(feature = "verif-hooks")]
+        super::c16_api::sched_lock(&this.0, "ffi::list_get");
+        let raw = this.0.lock().unwrap();
+        match idx.and_then(|idx| raw.get(idx)) {
             Some(src) => {
                 #[cfg(feature = "verif-hooks")]
-                super::c16_api::ptr_obtained(src);
+                let _c16_use = super::c16_api::lookup_then_use(
+                    &this.0,
+                    src,
+                    "ffi::list_get:use",
+                );
 
                 // We got a pointer into the list, clone it into out at the correct alignment
 
@@ -66,9 +77,6 @@ pub mod ffi {
                 // `out` must be a valid RotoOption<T>.
                 unsafe { out.cast::<u8>().write(1) };
 
-                #[cfg(feature = "verif-hooks")]
-                super::c16_api::sched_lock(&this.0, "ffi::list_get:relock");
-                let raw = this.0.lock().unwrap();
                 let size = raw.vtable.size();
                 let alignment = raw.vtable.align();
                 let offset = 1usize.next_multiple_of(alignment);
@@ -80,17 +88,17 @@ pub mod ffi {
                 let dst = unsafe { out.byte_add(offset) };
 
                 // If there is no clone function, we can optimize this by doing a memcpy.
-                #[cfg(feature = "verif-hooks")]
-                let _c16_use = super::c16_api::ptr_use(src);
                 match raw.vtable.clone_fn {
                     Some(clone_fn) => {
                         // SAFETY: dst is correct per the explanation above. src
-                        // is correct because we got it from ErasedList::get.
+                        // is correct because we got it from RawList::get and
+                        // still hold the lock.
                         unsafe { (clone_fn)(dst.cast::<()>(), src.as_ptr()) }
                     }
                     None => {
                         // SAFETY: dst is correct per the explanation above.
-                        // src is correct because we got it from ErasedList::get. The size
+                        // src is correct because we got it from RawList::get and still
+                        // hold the lock. The size
                         // we have is in bytes, hence we have to cast the pointers to u8
                         // for the correct size.
                         unsafe {
@@ -248,7 +256,13 @@ pub mod boundary {
 
         /// Get the element at index `idx`
         pub fn get(&self, idx: usize) -> Option<T> {
-            let ptr = self.inner.get(idx)?;
+            // The lock is held until the element has been cloned: once it is
+            // released another thread may push to the list, which may
+            // reallocate the buffer the pointer points into.
+            #[cfg(feature = "verif-hooks")]
+            super::c16_api::sched_lock(&self.inner.0, "List::get");
+            let guard = self.inner.0.lock().unwrap();
+            let ptr = guard.get(idx)?;
             #[cfg(feature = "verif-hooks")]
             let _c16_use = super::c16_api::lookup_then_use(
                 &self.inner.0,
@@ -257,7 +271,8 @@ pub mod boundary {
             );
 
             // SAFETY: The list has values of T::Transformed, which means that
-            // this cast is valid.
+            // this cast is valid. The pointer is valid because we hold the
+            // lock.
             let transformed =
                 unsafe { ptr.cast::<T::Transformed>().as_ref() };
 
@@ -561,12 +576,6 @@ impl ErasedList {
         drop(raw);
 
         new
-    }
-
-    pub fn get(&self, idx: usize) -> Option<NonNull<T>> {
-        #[cfg(feature = "verif-hooks")]
-        c16_api::sched_lock(&self.0, "ErasedList::get");
-        self.0.lock().unwrap().get(idx)
     }
 
     /// Check whether a list contains a value.
@@ -1286,14 +1295,6 @@ pub mod c16_api {
 
     pub(super) fn sched_lock(m: &Arc<Mutex<RawList>>, site: &'static str) {
         h::sched_lock(site, Arc::as_ptr(m) as usize, probe(m));
-    }
-
-    pub(super) fn ptr_obtained(p: NonNull<()>) {
-        h::ptr_obtained(p.as_ptr() as usize);
-    }
-
-    pub(super) fn ptr_use(p: NonNull<()>) -> h::UseScope {
-        h::ptr_use(p.as_ptr() as usize)
     }
 
     /// pointer obtained; schedule point between lookup and use; use
